@@ -75,6 +75,11 @@ CLAIMED = {
          "No counterexample (other than the listed known finding) among generated action sequences over 1-2 rings and 1-3 files (reads, writes, fsyncs, cancels of pending/completed/foreign/bogus targets, unsupported flags, full-queue pushes, all submit variants, clock advances at exact latency boundaries, partial/split/late drains, interleaved shim writes, close/reopen with ops in flight, ring drop, crash) under none/fixed/ranged latency and page cache on/off: every accepted submission produced exactly one completion with its user_data, no completion was visible before its minimum latency, results, buffers and final contents equalled the synchronous API applied in completion order, cancelled reads left their buffer untouched, and after a crash no earlier submission completed or took effect; the same inside a Sim with AsyncFd::readable loops and Sim::crash/bounce.",
          "Handles are opened read+write in the main search (known finding F-C18-1 concerns ring ops on handles with a narrower access mode and is asserted by its replays); fault injection, torn writes and misaligned O_DIRECT are excluded because the twin cannot share the Fs RNG; entries of a dropped ring are exempt from exactly-once.",
          "DESIGN.md §6 C18"),
+ "C01": ("exploration",
+         "property-based testing (proptest): every generated scenario is executed twice in one process and, for a deterministic third, in two freshly spawned OS processes, and the complete traces are compared (run-twice equality); a quarter of the fs/io_uring scenarios are additionally re-run with real wall-clock pauses injected by the harness (metamorphic relation: wall-clock time must not matter)",
+         "No counterexample among generated scenarios over all builder and filesystem knobs, 1-5 hosts with TCP/UDP/tokio-select-spawn/filesystem/io_uring programs and crash/bounce/partition/hold controller scripts: the sequence of turmoil trace events (sends, deliveries, drops, receives with endpoints and payloads), step results and panics, Sim::elapsed and the program logs (virtual timestamps, values, error kinds, read_dir order, CQE order) were identical between two runs in one process, between that and two fresh processes, and with wall-clock pauses injected.",
+         "Programs are pure functions of the scenario; fresh-process equality is between processes of this binary on this machine; a nondeterministic failure that does not reproduce on the final re-run of the shrunk case is still reported with the signature first seen.",
+         "DESIGN.md §6 C01"),
 }
 
 PENDING_REASON = "check not built yet in this round (planned, see DESIGN.md §6); not claimed until its check exists and has been shown silent on the unchanged tree"
